@@ -90,6 +90,13 @@ inductive Hdr where
   | hdr (id : Bytes) (size : Nat)
   deriving Repr
 
+/-- "correct chunkSize for rf64 and bw64 files": the size `_read_chunk_header` reports for a chunk whose
+header says `sz0`; `ds` is `some` for RF64/BW64 files. -/
+def hdrSize (ds : Option Ds64) (id : Bytes) (sz0 : Nat) : Nat :=
+  match ds with
+  | none => sz0
+  | some d64 => if id = idData then d64.dataSize else (d64.lookup id).getD sz0
+
 /-- `_read_chunk_header` with the buffer at `pos`.  `ds` is `some` for RF64/BW64 files. -/
 def readChunkHeader (f : Bytes) (ds : Option Ds64) (pos : Nat) : Hdr :=
   let d := readAt f pos 8
@@ -97,10 +104,7 @@ def readChunkHeader (f : Bytes) (ds : Option Ds64) (pos : Nat) : Hdr :=
   let id := d.take 4
   let sz0 := fromLE (d.drop 4)
   if !validId id then .badId else
-  -- correct chunkSize for rf64 and bw64 files
-  match ds with
-  | none => .hdr id sz0
-  | some d64 => .hdr id (if id = idData then d64.dataSize else (d64.lookup id).getD sz0)
+  .hdr id (hdrSize ds id sz0)
 
 /-- `_read_chunks`.  Every iteration that does not return advances the position by at least 8, so
 `fuel = len(file) + 1` is never exhausted. -/
